@@ -4,6 +4,7 @@
 #include <dlfcn.h>
 #include <fcntl.h>
 #include <linux/futex.h>
+#include <pthread.h>
 #include <sched.h>
 #include <stdarg.h>
 #include <stdio.h>
@@ -56,6 +57,23 @@ int g_firstFinisher = -1;
 long long g_stepSwitches = 0;
 uint64_t g_stepSig = 0;
 sim::SchedStats g_stats;
+
+// ---- thread start order ----------------------------------------------------
+// Whether a freshly created solver thread or its creator runs first is a
+// scheduling decision like any other.  pthread_create is interposed (below):
+// for every thread created by the main thread during a lower-bound step the
+// scheduler decides "child first" (the creator waits until the child has
+// reached its first sync point or finished) or "creator first" (the child is
+// held until the creator has made progress: created the next thread, reached a
+// sync point itself, or a short grace period has passed because it went to
+// sleep in future::get()).
+constexpr int kMaxChildren = 16;
+std::atomic<int> g_childState[kMaxChildren];  // 0 created, 1 at a sync point, 2 finished
+std::atomic<int> g_nChildren{0};
+std::atomic<long long> g_creatorEpoch{0};
+pid_t g_mainTid = 0;
+thread_local int t_childIndex = -1;
+bool g_childFirst[kMaxChildren];  // decided at LB_BEGIN, before any worker exists
 
 void futexWake() {
   syscall(SYS_futex, reinterpret_cast<int *>(&g_turn), FUTEX_WAKE_PRIVATE,
@@ -132,12 +150,38 @@ extern "C" void coloquinte_verif_point(int site, const void *obj) {
       return;
     }
     g_xObj = obj;
+    g_mainTid = (pid_t)syscall(SYS_gettid);
+    g_nChildren.store(0, std::memory_order_relaxed);
+    for (auto &c : g_childState) c.store(0, std::memory_order_relaxed);
     g_finished[0] = g_finished[1] = false;
     g_holder = -1;
     g_firstFinisher = -1;
     g_stepSwitches = 0;
     g_stepSig = 0;
     int first = chooseNext(-1);
+    // start-order decisions for the threads this step will create: taken here,
+    // by the main thread, so that the choice cursor is never touched by two
+    // threads at once
+    for (int i = 0; i < kMaxChildren; ++i) g_childFirst[i] = false;
+    for (int i = 0; i < 2; ++i) {
+      switch (g_mode) {
+        case sim::SM_YX:
+        case sim::SM_ALTY: g_childFirst[i] = true; break;
+        case sim::SM_PLAN:
+          if (g_cursor < g_nChoices) {
+            int c = g_choices[g_cursor++];
+            g_stats.choicesConsumed++;
+            if (c < 0) c = -c;
+            g_childFirst[i] = (c % 2) == 1;
+          }
+          break;
+        default: break;
+      }
+    }
+    for (int i = 0; i < 2; ++i) {
+      g_stats.grantHash = smix(g_stats.grantHash, (uint64_t)(g_childFirst[i] ? 7001 : 7002) + (uint64_t)i * 16);
+      g_stepSig = smix(g_stepSig, (uint64_t)(g_childFirst[i] ? 7001 : 7002) + (uint64_t)i * 16);
+    }
     g_turn.store(first, std::memory_order_release);
     g_stepActive.store(true, std::memory_order_release);
     return;
@@ -154,6 +198,12 @@ extern "C" void coloquinte_verif_point(int site, const void *obj) {
     return;
   }
   if (!g_stepActive.load(std::memory_order_acquire)) return;
+  if (t_childIndex >= 0 && t_childIndex < kMaxChildren) {
+    int expected = 0;
+    g_childState[t_childIndex].compare_exchange_strong(expected, 1, std::memory_order_acq_rel);
+  } else if ((pid_t)syscall(SYS_gettid) == g_mainTid) {
+    g_creatorEpoch.fetch_add(1, std::memory_order_acq_rel);  // the creator itself runs a solve
+  }
   int w = (obj == g_xObj) ? 0 : 1;
   if (g_mode == sim::SM_FREE) {
     if (g_nChoices > 0) {
@@ -198,6 +248,85 @@ extern "C" void coloquinte_verif_point(int site, const void *obj) {
     }
     default: return;
   }
+}
+
+namespace {
+struct Trampoline {
+  void *(*fn)(void *);
+  void *arg;
+  int index;
+  bool creatorFirst;
+  long long epochAtCreate;
+};
+
+void *trampoline(void *p) {
+  Trampoline t = *static_cast<Trampoline *>(p);
+  free(p);
+  t_childIndex = t.index;
+  if (t.creatorFirst) {
+    // hold this thread until its creator has made progress (bounded wait)
+    for (int i = 0; i < 4000; ++i) {
+      if (g_creatorEpoch.load(std::memory_order_acquire) != t.epochAtCreate) break;
+      if (!g_stepActive.load(std::memory_order_acquire)) break;
+      if (i < 200) sched_yield();
+      else {
+        struct timespec ts = {0, 50000};
+        nanosleep(&ts, nullptr);
+      }
+      if (i == 400) break;  // ~10 ms: the creator sleeps in future::get()
+    }
+  }
+  void *r = t.fn(t.arg);
+  if (t.index >= 0 && t.index < kMaxChildren) g_childState[t.index].store(2, std::memory_order_release);
+  t_childIndex = -1;
+  return r;
+}
+
+}  // namespace
+
+extern "C" int pthread_create(pthread_t *thread, const pthread_attr_t *attr, void *(*fn)(void *), void *arg) {
+  using Real = int (*)(pthread_t *, const pthread_attr_t *, void *(*)(void *), void *);
+  static Real real = reinterpret_cast<Real>(dlsym(RTLD_NEXT, "pthread_create"));
+  bool controlled = g_mode != sim::SM_OFF && g_mode != sim::SM_FREE && g_stepActive.load(std::memory_order_acquire) &&
+                    (pid_t)syscall(SYS_gettid) == g_mainTid;
+  if (!controlled) return real(thread, attr, fn, arg);
+  long long epoch = g_creatorEpoch.fetch_add(1, std::memory_order_acq_rel) + 1;  // creating a thread is progress
+  int index = g_nChildren.fetch_add(1, std::memory_order_acq_rel);
+  bool childFirst = index < kMaxChildren ? g_childFirst[index] : false;
+  Trampoline *t = static_cast<Trampoline *>(malloc(sizeof(Trampoline)));
+  if (!t || index >= kMaxChildren) {
+    free(t);
+    return real(thread, attr, fn, arg);
+  }
+  t->fn = fn;
+  t->arg = arg;
+  t->index = index;
+  t->creatorFirst = !childFirst;
+  t->epochAtCreate = epoch;
+  if (childFirst) g_stats.childFirstStarts++;
+  else g_stats.creatorFirstStarts++;
+  int rc = real(thread, attr, trampoline, t);
+  if (rc != 0) {
+    free(t);
+    return rc;
+  }
+  if (childFirst) {
+    // wait until the child is parked at its first sync point or has finished
+    bool ok = false;
+    for (int i = 0; i < 40000; ++i) {
+      if (g_childState[index].load(std::memory_order_acquire) != 0) {
+        ok = true;
+        break;
+      }
+      if (i < 200) sched_yield();
+      else {
+        struct timespec ts = {0, 50000};
+        nanosleep(&ts, nullptr);
+      }
+    }
+    if (!ok) g_stats.startOrderTimeouts++;
+  }
+  return rc;
 }
 
 namespace sim {
